@@ -26,7 +26,8 @@
 // consumers (component refcount-consumers):
 //
 //	access                Access(ctx_j, cb) with a harness-controlled callback
-//	cbreturn j n e        the n-th callback entry of access step j returns error id e
+//	cbreturn j n e        the n-th callback entry of access step j returns error id e (0 nil, 4..6 own errors,
+//	                      9 = ctx.Err() of the callback context, 10 = context.Canceled unconditionally)
 //	cancelcall j          cancel the caller context of consumer step j (access / wait / resolve / rwr)
 //	wait | resolve        Wait(ctx) / Resolve(ctx)
 //	addrefpromise         AddRefPromise() as a step of its own; the promise is read (non-blocking) at every
